@@ -27,7 +27,7 @@ def make_recv_results_rows(ColumnParser colparser):
         """
         self.recv_results_metadata(f, user_type_map)
 
-        column_metadata = self.column_metadata or result_metadata
+        column_metadata = self.column_metadata if self.column_metadata is not None else result_metadata
 
         self.column_names = [md[2] for md in column_metadata]
         self.column_types = [md[3] for md in column_metadata]
